@@ -123,6 +123,11 @@ def strat_history(draw, tier):
                    if slow else 0.0 for _ in range(n)]
         bursts.append({"window": draw(st.integers(1, 16)), "cmds": cmds,
                        "single": single, "cb_time": cb_time,
+                       # the commands' own payload (latin-1): bytes that
+                       # mean something to string formatting included
+                       "data": draw(st.sampled_from(
+                           ["", "", "", "{", "}", "{0}{cmd_rc}", "%s%d%",
+                            "\x00\xff{x", "plain payload"])),
                        # a later call may name another buffer size
                        "buffer": draw(st.sampled_from(
                            [None, None, None, 64, 128, 512, 1000]))})
@@ -187,14 +192,15 @@ def run_history(case, wrap=False):
                                    bytes(packet)))
                     h.clock.now += durations.get(cid, 0.0)
                 return cb
-            calls = [sc.scpcall(1, 2, 3, 5, cid, 0, 0, b"", make_cb(cid),
+            payload = burst.get("data", "").encode("latin-1")
+            calls = [sc.scpcall(1, 2, 3, 5, cid, 0, 0, payload, make_cb(cid),
                                 extra)
                      for cid, extra in zip(ids, burst["cmds"])]
             try:
                 with sut("send_scp_burst", (sc.SCPError, simnet.StepLimit)):
                     if burst["single"]:
                         pkt = conn.send_scp(buf, 1, 2, 3, 5, ids[0], 0, 0,
-                                            b"", 3, burst["cmds"][0])
+                                            payload, 3, burst["cmds"][0])
                         events.append(("callback", h.clock.now, ids[0],
                                        bytes(pkt.bytestring)))
                     else:
